@@ -1,6 +1,6 @@
 --------------------------- MODULE MC_DetermineNK ---------------------------
-(* decision table of grid.py determineNK / autoNK: one state per input; every state is replayed on the real function
-   (returned NKdiv, NKFFT, exception class, set of warnings) *)
+(* decision table of grid.py determineNK / autoNK: one state per input; states (all of them in the thorough tier up to a cap, a
+   seeded sample in the quick tier) are replayed on the real function: accepted / refused, returned NKdiv, NKFFT *)
 EXTENDS FactorKernel
 CONSTANTS GROUPS, SCALARS, VECTORS, RECS
 VARIABLES grp, gset, periodic, NKdiv, NKFFT, NK, rec, res, ambiguous
@@ -34,6 +34,8 @@ AdjustedIffMismatch == (Ok /\ NK # None /\ res.kind = "ok" /\ NKdiv = None)
 PairReturnedAsIs == (NKdiv # None /\ NKFFT # None /\ Ok) => (res.div = MaskPeriodic(NKdiv, periodic) /\ res.fft = MaskPeriodic(NKFFT, periodic))
 NonPeriodicOne == Ok => \A i \in 1..3 : ~periodic[i] => (res.div[i] = 1 /\ res.fft[i] = 1)
 Positive == Ok => \A i \in 1..3 : res.div[i] >= 1 /\ res.fft[i] >= 1
+(* the transcription's own choice is one of the values the harness accepts of the code *)
+TranscriptionIsValid == (res.kind = "ok") => ExplicitValueOK(periodic, NKdiv, NKFFT, NK, res.div, res.fft)
 (* periodic directions must be closed under the group, otherwise the system cannot have that group *)
 PeriodicCompatible == \A g \in gset : \A a \in 1..3, b \in 1..3 : g.A[a][b] # 0 => periodic[a] = periodic[b]
 ResultSymmetric == (Ok /\ PeriodicCompatible) => (SymmetricGrid(res.fft, gset) /\ SymmetricGrid(res.div, gset))
